@@ -683,3 +683,66 @@ func isReachable(graph *Graph, start, target string, visited map[string]bool) bo
 	}
 	return false
 }
+
+// hasWaitsForCycle reports whether the effective waits-for relation between
+// tasks contains a cycle. A task waits for its own dependencies and, through
+// its epic, for every child of every epic that its epic depends on. A cycle in
+// that relation blocks all tasks on it for good, even though the direct
+// dependency edges (checked by hasCycle) are acyclic.
+func hasWaitsForCycle(graph *Graph) bool {
+	children := map[string][]string{}
+	for id, task := range graph.Tasks {
+		if !isEpic(task) && task.EpicID != "" {
+			children[task.EpicID] = append(children[task.EpicID], id)
+		}
+	}
+	waitsFor := func(id string) []string {
+		task := graph.Tasks[id]
+		if task == nil || isEpic(task) {
+			return nil
+		}
+		var out []string
+		for dep := range graph.Deps[id] {
+			if other := graph.Tasks[dep]; other != nil && !isEpic(other) {
+				out = append(out, dep)
+			}
+		}
+		if task.EpicID != "" {
+			for epicDep := range graph.Deps[task.EpicID] {
+				if isEpic(graph.Tasks[epicDep]) {
+					out = append(out, children[epicDep]...)
+				}
+			}
+		}
+		return out
+	}
+	const (
+		unseen = iota
+		active
+		done
+	)
+	state := map[string]int{}
+	var visit func(id string) bool
+	visit = func(id string) bool {
+		switch state[id] {
+		case active:
+			return true
+		case done:
+			return false
+		}
+		state[id] = active
+		for _, next := range waitsFor(id) {
+			if visit(next) {
+				return true
+			}
+		}
+		state[id] = done
+		return false
+	}
+	for id, task := range graph.Tasks {
+		if !isEpic(task) && visit(id) {
+			return true
+		}
+	}
+	return false
+}
